@@ -109,7 +109,6 @@ func c13BFS(r *Run, strs []string, nkeys int, E []string, t uint32) {
 	}
 	g.SignatureThreshold = &cctptypes.SignatureThreshold{Amount: t}
 	scn := Scenario{Name: "c13", Ledger: BaseLedger(), Genesis: g}
-	baseExport := ""
 
 	enableArgs := append(append([]string{}, strs...), "", "0x")
 	disableArgs := append(append([]string{}, strs...), Keys[5].Hex, "", "0x")
@@ -125,7 +124,6 @@ func c13BFS(r *Run, strs []string, nkeys int, E []string, t uint32) {
 				m.Att[a] = true
 			}
 			root.Model, root.MKey = m, m.key()
-			baseExport = c13RestExport(w)
 		},
 		Actions: func(n *Node, w *World) []Action {
 			var as []Action
@@ -234,18 +232,8 @@ func c13BFS(r *Run, strs []string, nkeys int, E []string, t uint32) {
 				r.Violate("C13 state differs from model",
 					fmt.Sprintf("after %v: attesters=%v threshold=%d, model attesters=%v threshold=%d", descs(n.Path), shortAtts(got), thr, shortAtts(want), m.T), rp())
 			}
-			// nothing else in the module's exported state moved
-			if rest := c13RestExport(w); rest != baseExport {
-				r.Violate("C13 unrelated state changed", fmt.Sprintf("after %v: %s != %s", descs(n.Path), rest, baseExport), rp())
-			}
 		},
 	}
 	bfs.Explore(r)
 }
 
-// c13RestExport renders the exported state with attesters/threshold blanked.
-func c13RestExport(w *World) string {
-	v := ViewOf(w)
-	v.Attesters, v.Threshold = nil, 0
-	return v.String()
-}
